@@ -95,7 +95,51 @@ def o_rotation(a):
     return bool(ok), worst
 
 
-ORACLES = dict(align=o_align, spurmrot=o_spurmrot, detphi=o_detphi, rotation=o_rotation)
+def o_alignapp(a):
+    """xpstokesalign on a list of files with different field centres: the Q, U written for every file are the Stokes parameters of
+    PHI minus the model angle of *that* file's field (its own WCS reference unless --ra/--dec are given), whatever the position in the list"""
+    import os
+    import evfile
+    from astropy.io import fits
+    from common import scratch
+    from ixpeobssim.bin.xpstokesalign import xpstokesalign, PARSER
+    from ixpeobssim.evt.event import xEventFile
+    from ixpeobssim.srcmodel.polarization import xRadialPolarizationField, xTangentialPolarizationField
+    g = numpy.random.default_rng(a['seed'])
+    worst, bad = 0., []
+    with scratch() as d:
+        paths = []
+        for i, (ra0, dec0) in enumerate(a['centres']):
+            n = 300
+            p = os.path.join(d, 'f%d.fits' % i)
+            evfile.write_event_file(p, numpy.sort(g.uniform(0., 1000., n)), tstart=0., tstop=1000., ra0=ra0, dec0=dec0,
+                                    pi=g.integers(50, 200, n), phi=g.uniform(-math.pi, math.pi, n),
+                                    ra=ra0 + g.normal(0, 0.02, n) / math.cos(math.radians(dec0)), dec=dec0 + g.normal(0, 0.02, n))
+            paths.append(p)
+        for order in a['orders']:
+            args = [paths[i] for i in order] + ['--mode', a['mode'], '--overwrite', 'True']
+            if a.get('ra') is not None:
+                args += ['--ra=%r' % a['ra'], '--dec=%r' % a['dec']]
+            outs = xpstokesalign(**PARSER.parse_args(args).__dict__)
+            for i, o in zip(order, outs):
+                with fits.open(paths[i]) as f0, fits.open(o) as f1:
+                    ev0, ev1 = f0['EVENTS'].data, f1['EVENTS'].data
+                    q0, u0 = numpy.array(ev0['Q'], dtype=float), numpy.array(ev0['U'], dtype=float)
+                    q1, u1 = numpy.array(ev1['Q'], dtype=float), numpy.array(ev1['U'], dtype=float)
+                ra, dec = xEventFile(paths[i]).sky_position_data(False)      # the positions the application uses (from X, Y through the WCS)
+                c = a['centres'][i] if a.get('ra') is None else (a['ra'], a['dec'])
+                field = (xRadialPolarizationField if a['mode'] == 'RAD' else xTangentialPolarizationField)(*c)
+                phi0 = field.polarization_angle(ra, dec)
+                phi = 0.5 * numpy.arctan2(u0, q0)
+                eq, eu = 2. * numpy.cos(2. * (phi - phi0)), 2. * numpy.sin(2. * (phi - phi0))
+                err = float(max(numpy.abs(q1 - eq).max(), numpy.abs(u1 - eu).max()))
+                worst = max(worst, err)
+                if err > 1e-4:            # Q, U are float32 columns
+                    bad.append(dict(file=i, order=order, max_abs_err=err))
+    return not bad, dict(max_abs_err=worst, mismatching=bad[:4])
+
+
+ORACLES = dict(align=o_align, spurmrot=o_spurmrot, detphi=o_detphi, rotation=o_rotation, alignapp=o_alignapp)
 
 
 def oracle(chk, budget=1):
@@ -114,7 +158,17 @@ def oracle(chk, budget=1):
         for roll in rolls:
             phi = numpy.concatenate([g.uniform(-math.pi, math.pi, 50), [math.pi, -math.pi, 0., math.pi - 1e-12]])
             run_oracle(chk, 'detphi', dict(phi=phi.tolist(), du=du, roll=float(roll)), nontrivial=roll != 0.)
-    m = 6 * budget if chk.tier == 'quick' else 60 * budget
+    for j in range(3 * budget if chk.tier == 'quick' else 12 * budget):
+        centres = [(float(g.uniform(5., 355.)), float(g.uniform(-70., 70.))) for _ in range(3)]
+        explicit = j % 3 == 2
+        a = dict(seed=int(g.integers(1, 10 ** 6)), centres=centres, mode=['RAD', 'TAN'][j % 2], orders=[[0], [0, 1, 2], [2, 0, 1]],
+                 ra=[None, None, 0.0][j % 3] if not explicit else float(g.choice([0.0, centres[1][0]])), dec=None)
+        if a['ra'] is not None:
+            a['dec'] = float(g.choice([0.0, centres[1][1]]))
+            if a['ra'] == 0.0:                       # a centre exactly on RA = 0 (or Dec = 0): put the fields next to it
+                a['centres'] = [(float(g.uniform(0.05, 0.3)), a['dec'] + float(g.uniform(-0.2, 0.2))) for _ in range(3)]
+        run_oracle(chk, 'alignapp', a, nontrivial=True)
+    m = 10 * budget if chk.tier == 'quick' else 80 * budget
     for i in range(m):
         k = int(g.integers(0, 400))
         pa = g.uniform(-math.pi / 2, math.pi / 2)
@@ -126,6 +180,14 @@ def oracle(chk, budget=1):
         k = len(phi)
         energy = g.uniform(1.5, 9., k)
         wts = None if g.uniform() < 0.5 else g.uniform(0.05, 1., k).tolist()
+        if i % 4 == 1 and k > 0:
+            # a mirror-symmetric sample {+b, -b}: ΣU cancels exactly, so the measured angle sits exactly on a Stokes axis
+            # (0 deg, or ±90 deg when the excess is around ±π/2) before the rotation
+            # the two members of a pair are adjacent, so that the (sequential) per-bin sums cancel exactly
+            phi = numpy.column_stack([phi, -phi]).ravel()
+            energy = numpy.column_stack([energy, energy]).ravel()
+            wts = None if wts is None else numpy.column_stack([wts, wts]).ravel().tolist()
+            k = len(phi)
         d = float(g.uniform(-math.pi, math.pi)) if i % 3 else float(g.choice([math.pi / 2, math.pi / 4, -math.pi]))
         a = dict(phi=phi.tolist(), energy=energy.tolist(), weights=wts, du=int(g.integers(1, 4)), acceptcorr=bool(g.integers(0, 2)),
                  edges=[2., 3., 4., 6., 8.], d=d)
@@ -162,6 +224,6 @@ def replay(body):
         ok, obs = ORACLES[r['oracle']](r['args'])
         out('oracle %s on the recorded input: %s  observed=%s' % (r['oracle'], 'holds' if ok else 'FAILS', obs))
         return 0 if ok else 1
-    out('recorded: %s' % body['what'])
-    out(r)
-    return 1
+    import sys
+    import common
+    return common.replay_rerun(sys.modules[__name__], body)
